@@ -1,3 +1,9 @@
+/-
+C02 helper lemmas.  Order: byte level (serialize / splitNL / take), the bracket scanner, decoding of clean
+logs, the repair step on a cut log, MakeTasks (filter form, characterisation of the emitted tasks, no
+duplicates), keys/universe, restore, `finish_correct` (the core invariant step), the table codec, and the
+primed statements referenced one-to-one by Props/C02.lean.  `Ex` at the end holds the concrete witnesses.
+-/
 import CobaVerif.Model.C02
 import Mathlib.Data.List.Basic
 import Mathlib.Data.List.Perm.Basic
